@@ -42,7 +42,7 @@ impl Property for C07 {
         "a statement without LIMIT (plain, DISTINCT, join with fan-out, aggregate +- GROUP BY) x input of <= 16 lines split over 1-3 files, including rows whose projected columns are all NULL (one case in 30: every file repeated to 600-6000 lines in total, about a dozen LIMIT values spread over the row count); \
          for EVERY n in 0..=rows+2, and for 2^31, 2^32, 10^12 and 2^63-1, the statement with LIMIT n is run; in one case in eight a later line is unreadable (invalid UTF-8): a LIMIT satisfied by the lines before it must behave as if the input ended there. Oracle (metamorphic): records(LIMIT n) = first n records of the unlimited run; a non-aggregate statement consumes exactly the lines up to \
          the one that produced its n-th row (0 lines for n = 0, all lines when there are fewer rows; attribution by feeding the unlimited statement line by line through the engine); an aggregate \
-         statement consumes everything and keeps the first n groups. Non-trivial: some 0 < n < rows with >= 2 files or a fan-out line or a NULL-only row; distinct by case."
+         statement consumes everything and keeps the first n groups; the same LIMIT statement driven line by line through the public engine API by three kinds of driver (asking reached_limit() first like FollowFileExecutor, looking only at the flag of each result like python_wrapper.rs, never stopping) gives the first n rows and nothing else. Non-trivial: some 0 < n < rows with >= 2 files or a fan-out line or a NULL-only row; distinct by case."
             .to_string()
     }
 
@@ -307,6 +307,35 @@ impl Property for C07 {
                 }
                 if fed != expected_consumed {
                     return Err(Failure::new(format!("follow-path-consumption: {}", class), format!("LIMIT {} on the per-line path took {} lines, expected {}\n  {}", n, fed, expected_consumed, context)));
+                }
+                // two other drivers of the same public API: one that only looks at the flag in each line's result (what
+                // python_wrapper.rs does: it never asks reached_limit() first), and one that keeps feeding lines regardless -
+                // whoever drives, LIMIT n gives the first n rows and nothing else
+                for stop_at_flag in [true, false] {
+                    let mut engine = match crate::run::catch(|| ExecutionEngine::with_executed_joined_table(&limited.tables, &limited.statement)) {
+                        Ok(Ok(e)) => e,
+                        _ => continue,
+                    };
+                    let mut got: Vec<String> = Vec::new();
+                    for line in &all_lines {
+                        match engine_line(&mut engine, line, &ExecutionConfig::default()).map_err(panic_fail)? {
+                            Ok(lo) => {
+                                if let Some(r) = &lo.result {
+                                    got.extend(r.data.iter().map(|r| format!("{:?}", r.columns)));
+                                }
+                                if lo.reached_limit && stop_at_flag {
+                                    break;
+                                }
+                            }
+                            Err(_) => break,
+                        }
+                    }
+                    if got != want {
+                        return Err(Failure::new(
+                            format!("line-by-line-driver-not-a-prefix: {}", class),
+                            format!("LIMIT {} driven line by line ({}) gives {:?}, the first rows without LIMIT are {:?}\n  {}", n, if stop_at_flag { "stopping at the reached_limit flag of a result" } else { "never stopping" }, got, want, context),
+                        ));
+                    }
                 }
             }
         }
